@@ -25,71 +25,71 @@ MP_ASSUME = BASE_ASSUME + [
 
 PROPS = {
     "C01": {"level": "exploration", "assumptions": MP_ASSUME,
-            "parts": [{"engine": "mp", "test": "TestVF_C01", "quick": (4, 1500), "thorough": (16, 25000)},
-                      {"engine": "mp", "test": "TestVF_C01_Model", "quick": (4, 1000), "thorough": (16, 25000)}]},
+            "parts": [{"engine": "mp", "test": "TestVF_C01", "quick": (4, 5000), "thorough": (16, 25000)},
+                      {"engine": "mp", "test": "TestVF_C01_Model", "quick": (4, 3000), "thorough": (16, 25000)}]},
     "C02": {"level": "exploration", "assumptions": MP_ASSUME,
-            "parts": [{"engine": "mp", "test": "TestVF_C02", "quick": (4, 1500), "thorough": (16, 25000)}]},
+            "parts": [{"engine": "mp", "test": "TestVF_C02", "quick": (4, 5000), "thorough": (16, 25000)}]},
     "C03": {"level": "exploration", "assumptions": MP_ASSUME,
-            "parts": [{"engine": "mp", "test": "TestVF_C03", "quick": (4, 1500), "thorough": (16, 25000)}]},
+            "parts": [{"engine": "mp", "test": "TestVF_C03", "quick": (4, 5000), "thorough": (16, 25000)}]},
     "C04": {"level": "exploration", "assumptions": MP_ASSUME,
-            "parts": [{"engine": "mp", "test": "TestVF_C04", "quick": (4, 1500), "thorough": (16, 25000)},
-                      {"engine": "e2e", "test": "TestVF_C04_E2E", "quick": (4, 20), "thorough": (16, 300), "shrinktime": "10s"}]},
+            "parts": [{"engine": "mp", "test": "TestVF_C04", "quick": (4, 5000), "thorough": (16, 25000)},
+                      {"engine": "e2e", "test": "TestVF_C04_E2E", "quick": (4, 40), "thorough": (16, 300), "shrinktime": "10s"}]},
     "C20": {
         "level": "exploration",
         "assumptions": BASE_ASSUME + ["the limiter's clock is injected through its nowFunc field; arrival times are non-decreasing"],
         "parts": [
-            {"engine": "log", "test": "TestVF_C20", "quick": (2, 10000), "thorough": (16, 100000)},
+            {"engine": "log", "test": "TestVF_C20", "quick": (4, 20000), "thorough": (16, 100000)},
             {"engine": "log", "test": "TestVF_C20_Periodic", "quick": (1, 2000), "thorough": (8, 20000)},
             {"engine": "mp", "test": "TestVF_C20_Recorder", "quick": (1, 100), "thorough": (4, 1000)},
             {"engine": "log", "test": "TestVF_C20_Exhaustive", "kind": "plain", "tiers": ["thorough"]},
         ],
     },
     "C05": {"level": "exploration", "assumptions": BASE_ASSUME + ["the rate limiter's clock is injected (ratelimit.Clock); tolerance as stated in the property: 1% rate margin and 2 frames of tick quantisation"],
-            "parts": [{"engine": "thr", "test": "TestVF_C05", "quick": (4, 1250), "thorough": (16, 30000)},
-                      {"engine": "thr", "test": "TestVF_C05_Composed", "quick": (2, 500), "thorough": (16, 5000)},
-                      {"engine": "e2e", "test": "TestVF_C05_E2E", "quick": (4, 10), "thorough": (16, 120), "shrinktime": "10s"}]},
+            "parts": [{"engine": "thr", "test": "TestVF_C05", "quick": (4, 3000), "thorough": (16, 30000)},
+                      {"engine": "thr", "test": "TestVF_C05_Composed", "quick": (4, 1500), "thorough": (16, 5000)},
+                      {"engine": "e2e", "test": "TestVF_C05_E2E", "quick": (4, 20), "thorough": (16, 120), "shrinktime": "10s"}]},
     "C06": {"level": "exploration", "assumptions": BASE_ASSUME + ["caller-well-formed sessions only (the shape MotionProcessor produces); no lock-step model of the token bucket: budget bounds are derived from forwarded frames and elapsed time"],
-            "parts": [{"engine": "thr", "test": "TestVF_C06", "quick": (4, 1250), "thorough": (16, 30000)}]},
+            "parts": [{"engine": "thr", "test": "TestVF_C06", "quick": (4, 4000), "thorough": (16, 30000)}]},
     "C07": {"level": "exploration", "assumptions": BASE_ASSUME + ["the reference detector is an independent implementation of the statement; count-thresh >= 1, gap >= 1, 2*edge < min(w,h)"],
-            "parts": [{"engine": "mp", "test": "TestVF_C07", "quick": (4, 5000), "thorough": (16, 100000)}]},
+            "parts": [{"engine": "mp", "test": "TestVF_C07", "quick": (4, 8000), "thorough": (16, 100000)}]},
     "C08": {"level": "exploration", "assumptions": BASE_ASSUME + ["metamorphic relation over pairs of streams; background and threshold are read in-package after every frame"],
-            "parts": [{"engine": "mp", "test": "TestVF_C08", "quick": (4, 1500), "thorough": (16, 40000)}]},
+            "parts": [{"engine": "mp", "test": "TestVF_C08", "quick": (4, 4000), "thorough": (16, 40000)}]},
     "C09": {"level": "exploration", "assumptions": BASE_ASSUME + ["reading of 'content of any frame from before it': paired histories share the timeline (length, telemetry, resets) and differ only in pixels before the FFC period / reset; dynamic-threshold pairs have no reset before the end of the period (DESIGN.md C09)"],
-            "parts": [{"engine": "mp", "test": "TestVF_C09", "quick": (4, 2500), "thorough": (16, 60000)}]},
+            "parts": [{"engine": "mp", "test": "TestVF_C09", "quick": (4, 6000), "thorough": (16, 60000)}]},
     "C13": {"level": "exploration", "assumptions": MP_ASSUME,
-            "parts": [{"engine": "mp", "test": "TestVF_C13_Proc", "quick": (4, 750), "thorough": (16, 20000)},
-                      {"engine": "e2e", "test": "TestVF_C13_Parser", "quick": (4, 2500), "thorough": (16, 50000)},
-                      {"engine": "e2e", "test": "TestVF_C13_Socket", "quick": (4, 25), "thorough": (16, 400), "shrinktime": "10s"},
+            "parts": [{"engine": "mp", "test": "TestVF_C13_Proc", "quick": (4, 2500), "thorough": (16, 20000)},
+                      {"engine": "e2e", "test": "TestVF_C13_Parser", "quick": (4, 5000), "thorough": (16, 50000)},
+                      {"engine": "e2e", "test": "TestVF_C13_Socket", "quick": (4, 50), "thorough": (16, 400), "shrinktime": "10s"},
                       {"engine": "e2e", "test": "TestVF_C13_DBus", "quick": (2, 10), "thorough": (8, 100), "shrinktime": "10s"},
                       {"engine": "e2e", "test": "FuzzVF_C13_Parser", "kind": "fuzz", "tiers": ["thorough"], "thorough_secs": 90}]},
     "C14": {"level": "exploration", "assumptions": BASE_ASSUME + ["camera descriptions are encoded with the same yaml.v1 Marshal call as cmd/leptond's sendCameraSpecs (which itself needs camera hardware); strings are single-line valid UTF-8"],
-            "parts": [{"engine": "hdr", "test": "TestVF_C14_Header", "quick": (4, 2500), "thorough": (16, 50000)},
-                      {"engine": "e2e", "test": "TestVF_C14_Socket", "quick": (4, 25), "thorough": (16, 400), "shrinktime": "10s"},
+            "parts": [{"engine": "hdr", "test": "TestVF_C14_Header", "quick": (4, 4000), "thorough": (16, 50000)},
+                      {"engine": "e2e", "test": "TestVF_C14_Socket", "quick": (4, 50), "thorough": (16, 400), "shrinktime": "10s"},
                       {"engine": "lpd", "test": "TestVF_C14_Leptond", "kind": "plain"},
                       {"engine": "hdr", "test": "FuzzVF_C14_Header", "kind": "fuzz", "tiers": ["thorough"], "thorough_secs": 90}]},
     "C15": {"level": "exploration", "assumptions": BASE_ASSUME + ["background and threshold are read in-package from the detector; threshold tolerance +-1 for float accumulation"],
-            "parts": [{"engine": "mp", "test": "TestVF_C15", "quick": (4, 1500), "thorough": (16, 40000)}]},
+            "parts": [{"engine": "mp", "test": "TestVF_C15", "quick": (4, 4000), "thorough": (16, 40000)}]},
     "C10": {"level": "fault_enumeration", "assumptions": BASE_ASSUME + ["process kill only (as the property says); a kill on entering a file-system system call of the handleConn thread leaves exactly the on-disk state a concurrent observer could see at that instant", "strace (ptrace) is available; crash points are numbered on a reference run of the same stream and verified per run (misaligned runs are skipped and counted)", "the constant-recordings sub-directory is judged only by 'every .cptv decodes'; the start-up clean-up covers the top-level output directory"],
             "parts": [{"engine": "e2e", "test": "TestVF_C10", "quick": (4, 1), "thorough": (16, 2), "quick_env": {"VERIF_C10_POINTS": 30}, "shrinktime": "1s", "quick_timeout": 600, "thorough_timeout": 3000}]},
     "C11": {"level": "exploration", "assumptions": BASE_ASSUME + ["handleConn is driven over net.Pipe in lock step; no system D-Bus (calls to peer daemons fail fast and are ignored by the code); distinct recordings start in distinct milliseconds (the sender paces frames); altitude >= 0 (go-cptv does not store negative altitudes)"],
             "parts": [{"engine": "e2e", "test": "TestVF_C11", "quick": (4, 150), "thorough": (16, 1500), "shrinktime": "10s"}]},
     "C12": {"level": "exploration", "assumptions": MP_ASSUME + ["sink faults are injected by call ordinal on mock sinks; the real file recorder's own failure modes are exercised by the e2e checks"],
-            "parts": [{"engine": "mp", "test": "TestVF_C12", "quick": (4, 1000), "thorough": (16, 30000)},
-                      {"engine": "mp", "test": "TestVF_C12_SingleFault", "quick": (4, 60), "thorough": (16, 1500), "shrinktime": "5s"}]},
+            "parts": [{"engine": "mp", "test": "TestVF_C12", "quick": (4, 3000), "thorough": (16, 30000)},
+                      {"engine": "mp", "test": "TestVF_C12_SingleFault", "quick": (4, 100), "thorough": (16, 1500), "shrinktime": "5s"}]},
     "C16": {"level": "exploration", "assumptions": BASE_ASSUME + ["the harness does not own the Go scheduler: interleavings are those produced under generated perturbation (GOMAXPROCS, spins, yields, pauses); the race detector reports races on executions that occur", "the D-Bus transport itself is not run: the service methods are called directly"],
             "parts": [{"engine": "e2e", "race": True, "test": "TestVF_C16", "quick": (4, 40), "thorough": (16, 500), "shrinktime": "15s", "quick_timeout": 600},
                       {"engine": "e2e", "race": True, "test": "TestVF_C16_DBus", "quick": (2, 15), "thorough": (8, 150), "shrinktime": "15s", "quick_timeout": 600}]},
     "C17": {"level": "exploration", "assumptions": MP_ASSUME,
-            "parts": [{"engine": "mp", "test": "TestVF_C17", "quick": (4, 750), "thorough": (16, 25000)},
-                      {"engine": "e2e", "test": "TestVF_C17_E2E", "quick": (4, 15), "thorough": (16, 250), "shrinktime": "10s"}]},
+            "parts": [{"engine": "mp", "test": "TestVF_C17", "quick": (4, 2500), "thorough": (16, 25000)},
+                      {"engine": "e2e", "test": "TestVF_C17_E2E", "quick": (4, 40), "thorough": (16, 250), "shrinktime": "10s"}]},
     "C18": {"level": "exploration", "assumptions": BASE_ASSUME + ["the harness does not own the scheduler: relative speeds of reader and writer are perturbed through GOMAXPROCS, CPU-burning goroutines, sender pacing and chunking; the race detector reports races on executions that occur", "one connection per output directory (file names have one-second resolution)"],
-            "parts": [{"engine": "tw", "race": True, "test": "TestVF_C18", "quick": (4, 12), "thorough": (16, 120), "shrinktime": "15s", "quick_timeout": 600},
+            "parts": [{"engine": "tw", "race": True, "test": "TestVF_C18", "quick": (4, 16), "thorough": (16, 120), "shrinktime": "15s", "quick_timeout": 600},
                       {"engine": "tw", "race": True, "test": "TestVF_C18_Rotation", "kind": "plain", "tiers": ["thorough"]}]},
     "C19": {
         "level": "exploration",
         "assumptions": BASE_ASSUME + ["every Move is preceded by a write into the current slot, as in both callers"],
         "parts": [
-            {"engine": "mp", "test": "TestVF_C19", "quick": (2, 10000), "thorough": (16, 200000)},
+            {"engine": "mp", "test": "TestVF_C19", "quick": (4, 20000), "thorough": (16, 200000)},
             {"engine": "mp", "test": "TestVF_C19_Exhaustive", "kind": "plain", "tiers": ["thorough"]},
             {"engine": "mp", "test": "FuzzVF_C19", "kind": "fuzz", "tiers": ["thorough"], "thorough_secs": 60},
         ],
